@@ -1,7 +1,7 @@
 (** * Exe/ExecHyps.v — the side conditions of the C01 theorems as boolean predicates (evaluated on
     every generated case by ExecCheck).  Definitions only. *)
 From Coq Require Import List NArith ZArith Bool.
-From ApiFu Require Import Base.Sexp Exe.ExecData.
+From ApiFu Require Import Base.Sexp Exe.ExecData Exe.ExecSpec.
 Import ListNotations.
 
 (** every selection node of the document, at any depth, operation and fragment definitions *)
@@ -34,3 +34,9 @@ Definition type_names_okb (S : schema) : bool :=
   && name_okb (query S)
   && match mutation S with Some m => name_okb m | None => true end
   && match subscription S with Some m => name_okb m | None => true end.
+
+(** every @skip/@include condition of the document has a boolean value: a literal, or a variable
+    whose coerced value is a boolean.  CoerceVariableValues guarantees it for every variable of a
+    validated operation except a nullable variable with a default that is explicitly given null
+    (and then collectFields reports an error for the directive and leaves the selection out). *)
+Definition dirs_evaluable (D : document) (E : env) : bool := forallb (dirs_ok E) (all_sels D).
